@@ -63,7 +63,14 @@ func zzStream(N int) []byte {
 		verifAssume(c0 < c1)
 		s := make([]byte, N)
 		for i := range s {
-			s[i] = verifIteU8(verifBool(verifName("b", i)), c1, c0)
+			switch verifParamOr(verifName("pin", i), -1) { // job split: this job explores one letter at this position
+			case 0:
+				s[i] = c0
+			case 1:
+				s[i] = c1
+			default:
+				s[i] = verifIteU8(verifBool(verifName("b", i)), c1, c0)
+			}
 		}
 		return s
 	}
@@ -228,7 +235,10 @@ func zzSapParseAll(tag string, c zzSapCfg, p Parser, pb *ParserBuffer, nilFirst 
 			verifReach("skipped")
 			continue
 		}
-		flags := verifChoose(verifName("flags", step), 2)
+		flags := verifParamOr("flagsfix", -1) // -1: symbolic per call
+		if flags < 0 {
+			flags = verifChoose(verifName("flags", step), 2)
+		}
 		var blk Block
 		n, err := p.Parse(&blk, flags)
 		if err == ErrEmptyBuffer {
